@@ -3,7 +3,8 @@ import Nv.Model.C15
 import Nv.Gen.C15
 /-!
 oracle_c15 — line protocol (sequential operations on one worker group):
-  `new <map|lru> <cap> <workers>`                         → `ok`
+  `new <map|lru|lrus> <cap> <workers>`   (`lrus`: LRU whose values have `Size()` = v % 3 + 1)
+  `gap <add|upd|uoa|utl|utr> <k> <v>`     the operation (no faults) with the cache facade's `Set` held open; same result line                         → `ok`
   `get <k> <faults>` `del <k> <faults>`
   `add|upd|uoa|utl|utr <k> <v> <faults>`                  → `<ok:v|nil|err:dup|err:inj|err:nf|err:exists|panic> cb=<callbacks>`
         faults: string over 0/1/c (1 = that callback invocation fails, c = the caller's context is cancelled during it), `-` = none
@@ -76,7 +77,9 @@ def step1 (st : St) (line : String) : St × String :=
   | ["new", f, c, w] =>
     (match natOf c, natOf w with
      | some c, some w =>
-       if (f == "map" || f == "lru") && c ≤ 64 && 1 ≤ w && w ≤ 128 then (some (State.init (f == "lru") c w), "ok") else (none, "bad-op")
+       if (f == "map" || f == "lru" || f == "lrus") && c ≤ 64 && 1 ≤ w && w ≤ 128 then
+         (some (State.init (f != "map") (f == "lrus") c w), "ok")
+       else (none, "bad-op")
      | _, _ => (none, "bad-op"))
   | [op, k, f] =>
     (match st, parseKey k, parseFaults f with
@@ -88,6 +91,16 @@ def step1 (st : St) (line : String) : St × String :=
   | ["pile", k, m, "-"] =>
     (match st, parseKey k, natOf m with
      | some _, some _, some m => if m ≤ 16 then (st, "done") else (st, "bad-op")
+     | _, _, _ => (st, "bad-op"))
+  | ["gap", op, k, v] =>   -- the operation with the facade's `Set` held open meanwhile (judged by a monitor): same result
+    (match st, parseKey k, parseVal v with
+     | some s, some k, some v =>
+       if op == "add" then run s (.add k v) ([], [])
+       else if op == "upd" then run s (.upd k v) ([], [])
+       else if op == "uoa" then run s (.uoa k v) ([], [])
+       else if op == "utl" then run s (.utl k v) ([], [])
+       else if op == "utr" then run s (.utr k v) ([], [])
+       else (st, "bad-op")
      | _, _, _ => (st, "bad-op"))
   | ["stress", seed, n, "-"] =>
     (match st, natOf seed, natOf n with
